@@ -590,7 +590,8 @@ def report(ctx, prop, res, clauses):
         ctx.notes.append("gids+timer pair: %d cases fail a clause owned by the other property (%s): %s" % (
             len(other), other[0][2], other[0][3][:200]))
     if mine:
-        l, o, clause, why = min(mine, key=lambda t: len(t[0]))
+        # prefer a case whose failure is visible in an answer, then the shortest
+        l, o, clause, why = min(mine, key=lambda t: (0 if ("keeps answering" in t[3] or "is_member" in t[3]) else 1, len(t[0])))
         ctx.violation("gids.c+timer.c: %s (%d failing cases; shortest: %s -> %s)" % (why, len(mine), l[:400], o[:300]),
                       {"pair_case_line": l, "impl_output": o[:2000], "why": why, "clause": clause, "n_failing": len(mine),
                        "stderr": res.get("stderr", "")[-2000:] if o.startswith("!crash") else ""})
